@@ -257,7 +257,8 @@ def evaluate(obs):
             if d.get('dest') == 'partial':
                 viol.append(V(f'{x.label}: failed download left partial content under the destination name', sym='partial-at-done', **mech))
             elif d.get('dest') == 'complete' and x.prev != x.data:
-                cend = [e for e in obs.events if e['kind'] == 'cancel.end']
+                # (the moment the cancellation was applied: the return of future.cancel(), or the Ctrl-C exit's cancel-all pass)
+                cend = [e for e in obs.events if e['kind'] in ('cancel.end', 'pp.cancel_all')]
                 late = [e for e in evs if cend and e['n'] > cend[-1]['n'] and e['kind'] == 'body.read' and e.get('nbytes', 0) > 0]
                 if not cend or late:
                     viol.append(V(f'{x.label}: failed ({d.get("exception")}) but the complete object was published', sym='published-on-failure',
